@@ -1130,6 +1130,10 @@ func (p *prover) condFacts(conds []Cond) []dfact {
 		if !ok {
 			continue
 		}
+		if fs := p.nilErrorFacts(bo, cd.Truth); len(fs) > 0 {
+			out = append(out, fs...)
+			continue
+		}
 		if _, isInt := bo.X.Type().Underlying().(*types.Basic); !isInt {
 			continue
 		}
